@@ -247,6 +247,10 @@ def run(repo: Repo, rep: Report, tier: str) -> None:
             sentinel = isinstance(t, ast.Tuple) and all(isinstance(e_, ast.Constant) and e_.value is None for e_ in t.elts)
             rep.check(q == "dimse.DIMSEServiceProvider.receive_primitive" or sentinel, "id-flow", q, enclosing(c, (ast.stmt,)), "a DIMSE message is put on the queue outside the reader that decoded it: the context id it is paired with is not the one it arrived on - a request received on a rejected, never proposed or invalid context id that is re-queued under an accepted one is served by the handler instead of aborting the association", mod=m, node=c)
     rep.floor("msg_queue writers in the package", n_put, 1)
+    check_accepted_view_complete(repo, rep, "accepted-table")
+    from ..delegate import delegate as _delegate19
+    rep.rule("no-stale-request", "a completed request is dropped from the reassembly state on every exit (C15's message-reset): nothing the peer sends later can complete it a second time")
+    _delegate19(repo, rep, tier, "C15", ("message-reset",), "no-stale-request", "the decoded request - with the accepted context ID it arrived on - stays in the provider: a bare data-set PDV on a rejected, never proposed or invalid context ID later completes it again and the request is passed to the handler a second time instead of aborting the association")
 
     # ---- store sub-operation -----------------------------------------------------------------------
     cs = repo.func("association", "Association._c_store_scp")
@@ -414,3 +418,44 @@ def check_guarded_lookup(repo: Repo, rep: Report, rule: str = "guarded-lookup") 
             else:
                 rep.fail(rule, fq, enclosing(x, (ast.stmt,)) or x, f"`{norm(x)}` indexes the accepted-context table with an id that comes from the peer without expecting a miss: a message on a context id that was never accepted raises KeyError in the thread that serves the association, which ends it - the association stays 'established' with its socket open, serves nothing, and is no longer counted among the AE's active associations", mod=m, node=x)
     return n
+
+
+def check_accepted_view_complete(repo, rep, rule: str) -> None:
+    """The guards look requests up in Association._accepted_cx; the A-ASSOCIATE-AC the acceptor sends is built from
+    the public accepted_contexts / rejected_contexts properties. Both must describe the same set: the getters are
+    evaluated (sa/minipy.py) on a table holding contexts that differ only in their ID - every context of the
+    table comes out, once, in ID order. A getter that merges 'equivalent' contexts leaves an ID out of the AC that
+    stays accepted internally: the peer was never told it was accepted, yet a request on it is served."""
+    from ..minipy import Interp, Obj, Raised, Unsupported
+
+    rep.rule(rule, "accepted_contexts (in ID order) / rejected_contexts list every context of the internal table exactly once (evaluated with contexts that differ only in their ID)")
+    am = repo.mod("association")
+    ci = am.classes.get("Association")
+    n = 0
+    for prop, store in (("accepted_contexts", "_accepted_cx"), ("rejected_contexts", "_rejected_cx")):
+        fn = ci.getters.get(prop) if ci is not None else None
+        if fn is None:
+            rep.defer(f"association.Association.{prop} getter vanished")
+            continue
+        fq = f"association.Association.{prop}"
+        uses_dict = any(isinstance(c, ast.Attribute) and c.attr == "values" and norm(c.value) == f"self.{store}" for c in ast.walk(fn))
+
+        def cx(i, ts=("1.2.840.10008.1.2.1",)):
+            return Obj("PresentationContext", {"context_id": i, "abstract_syntax": "1.2.840.10008.5.1.4.1.1.2", "transfer_syntax": list(ts), "as_scu": True, "as_scp": False, "result": 0, "_as_scu": True, "_as_scp": False})
+
+        ctxs = [cx(5), cx(1), cx(3), cx(7, ("1.2.840.10008.1.2",))]
+        table = {c.attrs["context_id"]: c for c in ctxs} if uses_dict else list(ctxs)
+        me = Obj("Association", {store: table})
+        try:
+            got = Interp({}).call_function(fn, {"self": me})
+        except Unsupported as exc:
+            rep.defer(f"{fq}: not evaluable with stand-ins ({exc})")
+            continue
+        except Raised as r:
+            rep.fail(rule, fq, f"raises {r.kind}", "the getter raises on an ordinary table", mod=am, node=fn)
+            continue
+        n += 1
+        ids = [c.attrs.get("context_id") for c in got] if isinstance(got, list) else None
+        okv = ids == [1, 3, 5, 7] if prop == "accepted_contexts" else (ids is not None and sorted(ids) == [1, 3, 5, 7])
+        rep.check(okv, rule, fq, f"table with IDs [5, 1, 3, 7] (1, 3, 5 identical apart from the ID) -> {ids}", f"the public view of the {store} table must list every context once, in ID order; it gives {ids}: the A-ASSOCIATE-AC built from it leaves a context out that the guards still treat as accepted - a request on an ID the peer was never told about is served", mod=am, node=fn)
+    rep.floor("context table views evaluated", n, 1)
